@@ -224,15 +224,24 @@ impl<'a> LuaGen<'a> {
                 self.bump("call");
                 let n = self.r.below(3);
                 let args: Vec<String> = (0..n).map(|_| self.expr(2)).collect();
-                let callee = match self.r.below(5) {
+                let callee = match self.r.below(7) {
                     0 => format!("{}.{}", self.name(), self.r.pick(&["f", "insert"])),
                     1 => format!("{}:{}", self.name(), self.r.pick(&["m", "n"])),
+                    // a parenthesised prefix: `(f)(x)`, `(t.f)(x)`, `(t):m(x)`, `(f or g)(x)`
+                    2 => match self.r.below(4) {
+                        0 => format!("({})", self.name()),
+                        1 => format!("({}.{})", self.name(), self.r.pick(&["f", "g"])),
+                        2 => format!("({}):{}", self.name(), self.r.pick(&["m", "n"])),
+                        _ => format!("({} or {})", self.name(), self.name()),
+                    },
                     _ => self.name(),
                 };
+                // a statement that begins with `(` would continue the previous line (`a = b` / `(f)(x)`): it gets a block of its own
+                let (open, close) = if callee.starts_with('(') { ("do ", " end") } else { ("", "") };
                 match self.r.below(8) {
-                    0 => format!("{i}{callee} \"str\"\n"),
-                    1 => format!("{i}{callee} {{ {} }}\n", args.join(", ")),
-                    _ => format!("{i}{callee}({})\n", args.join(", ")),
+                    0 => format!("{i}{open}{callee} \"str\"{close}\n"),
+                    1 => format!("{i}{open}{callee} {{ {} }}{close}\n", args.join(", ")),
+                    _ => format!("{i}{open}{callee}({}){close}\n", args.join(", ")),
                 }
             }
             7 => format!("{i}local {}\n", self.local_name()),
